@@ -13,7 +13,7 @@ from . import c07
 
 ID = "C14"
 LEVEL = "model_checking"
-ASSUMPTIONS = ["see C09; tokens are obtained through the real NIP-42 AUTH handshake (valid answers; C15 covers invalid ones)"]
+ASSUMPTIONS = ["real nostr_relay code imported from /repo's working tree, driven through web.start_client / the storage API; SQLite runs for real behind a same-thread connection shim (bound to real aiosqlite by C06's conformance cases); LMDB is an in-memory double (bound to the real liblmdb by C10's conformance cases), msgpack is pip's pure-python codec; asyncio runs on a controlled virtual-time loop; tokens are obtained through the real NIP-42 AUTH handshake (valid answers; C15 covers invalid ones)"]
 CHUNK = 2
 
 ROLES = ["a", "r", "w"]
